@@ -1,5 +1,6 @@
 #ifndef PK_GEN_H
 #define PK_GEN_H
+#include <stddef.h>
 #include <stdint.h>
 typedef struct pkcfg {
     const char *name;
@@ -15,6 +16,12 @@ typedef struct pkcfg {
     uint32_t (*bsearch)(const void *, uint32_t, uint64_t);
     void (*insert)(void *, uint32_t, uint32_t, uint64_t);
     void (*del)(void *, uint32_t, uint32_t);
+    /* ...Bytes variants: the element count is derived from the storage size */
+    void (*insert_sorted_b)(void *, size_t, uint64_t);
+    long (*member_b)(const void *, size_t, uint64_t);
+    int (*delete_member_b)(void *, size_t, uint64_t);
+    void (*insert_b)(void *, size_t, uint32_t, uint64_t);
+    void (*del_b)(void *, size_t, uint32_t);
 } pkcfg;
 extern pkcfg PK[];
 extern int NPK;
